@@ -56,6 +56,13 @@ def main(tier):
     for sc in ["scenario1_tiny"] + [x for x in ["scenario1_small", "scenario1", "three_nets"] if x not in scenarios]:
         specs.append({"scenario": sc, "dynamic": False, "defender": False, "players": 1, "seed": 42, "episodes": 1, "steps": 2, "generic_start": True})
     jobs = [(spec, hs) for spec in specs for hs in hashseeds]
+    # ... and as the second / third coordinator of one interpreter
+    inproc = {}
+    for spec in specs:
+        if not spec.get("generic_start") or spec["scenario"] == "scenario1_tiny":
+            sp2 = dict(spec, runs=2 if q else 3)
+            inproc[id(spec)] = sp2
+            jobs.append((sp2, hashseeds[1]))
     with ThreadPoolExecutor(max_workers=min(16, len(jobs))) as ex:
         results = list(ex.map(lambda j: run_probe(*j), jobs))
     programs, samples, nontrivial = 0, [], 0
@@ -63,6 +70,7 @@ def main(tier):
     disagreements = 0
     for spec in specs:
         rs = [(hs, r) for (sp, hs), r in zip(jobs, results) if sp is spec]
+        rs += [(f"{hs} as coordinator #{sp['runs']} of its interpreter", r) for (sp, hs), r in zip(jobs, results) if sp is inproc.get(id(spec))]
         base = None
         for hs, r in rs:
             programs += 1
@@ -83,7 +91,7 @@ def main(tier):
                 V.fail(f"nondeterministic:{'dynamic' if spec['dynamic'] else 'static'}:{'hash' if i == 0 else 'responses'}",
                        f"same configuration, seed and messages but {what} differs between PYTHONHASHSEED={base[0]} and {hs} ({spec['scenario']}, dynamic={spec['dynamic']})",
                        {"spec": spec, "hashseeds": [base[0], hs], "index": i, "a": x, "b": y,
-                        "replay": f"PYTHONHASHSEED={hs} python -m nsgverif.probe_session '{json.dumps(spec)}'"})
+                        "replay": f"PYTHONHASHSEED={str(hs).split()[0]} python -m nsgverif.probe_session '{json.dumps(inproc[id(spec)] if ' as ' in str(hs) else spec)}'"})
         if spec["dynamic"]:
             nontrivial += 1
     for sc, hs in hashes.items():
